@@ -92,8 +92,9 @@ Proof.
 Qed.
 Print Assumptions C04_dispatch_table_is_the_sources.
 
-(* Memory: no allocation in the library is sized by a number read from the input.  Every
-   make(T, n) / Buffer.Grow(n) in the source has a size that is a constant, the length of something
+(* Memory: no allocation on the decoding side is sized by a number read from the input.  Every
+   make(T, n) / Buffer.Grow(n) in a function reachable from the decoder's entry points (every method of
+   Decoder, NewDecoder*; package call graph by go/types, any mention of a function counts) has a size that is a constant, the length of something
    that already exists, a single byte (<= 255), or a variable capped by a constant in the same
    function (`if x > CONST { x = CONST }`: the 64 KiB preallocation cap of BINSTRING / BINBYTES /
    BYTEARRAY8).  Payloads are then read with io.CopyN into a growing buffer, i.e. memory follows
